@@ -221,7 +221,7 @@ func loopQuantity(an *ir.Analysis, h *ssa.BasicBlock, init *ir.Term) (Quantity, 
 			continue
 		}
 		p.End.EachMem(func(addr, val *ir.Term) {
-			if addr.Op == "alloc" && ir.Same(val, init) {
+			if cellAddr(addr) && ir.Same(val, init) {
 				// the cell must be modified somewhere in the loop, otherwise it is just a copy of the parameter
 				modified := false
 				for _, q := range an.Segs[h] {
@@ -321,4 +321,23 @@ func runIntervals(an *ir.Analysis, init Itv, q Quantity, observe func(s *ir.Step
 		}
 	}
 	return res
+}
+
+// cellAddr: the address of a variable of the stage - a local / captured variable (alloc) or a field of a state
+// object the stage allocates (closures turned into methods keep their counters there).
+func cellAddr(a *ir.Term) bool {
+	for a != nil {
+		switch a.Op {
+		case "alloc":
+			return true
+		case "faddr":
+			if len(a.Args) != 1 {
+				return false
+			}
+			a = a.Args[0]
+		default:
+			return false
+		}
+	}
+	return false
 }
